@@ -308,18 +308,26 @@ fn run_cross_real(op: &XOp, pc: f64, both: bool, sols: &[Vec<f64>]) -> VecObs<f6
         XOp::Arithmetic => rc::ArithmeticCrossover::new::<RealP>(pc, both),
         XOp::Cycle => unreachable!(),
     };
-    let pop: Vec<Individual<RealP>> = sols.iter().map(|s| Individual::new(s.clone(), crate::subject::problems::so(1.0))).collect();
+    let pop: Vec<Individual<RealP>> = sols.iter().enumerate().map(|(k, s)| Individual::new(s.clone(), crate::subject::problems::so(k as f64 + 1.0))).collect();
     let mut st = state_with::<RealP>(vec![pop]);
     let r = run_component(c.as_ref(), &problem, &mut st).map_err(|e| format!("{:#}", e));
-    (r, pops_of(&st).iter().map(|p| p.iter().map(|i| (i.solution().clone(), i.is_evaluated())).collect()).collect())
+    (r, pops_of(&st).iter().map(|p| p.iter().map(|i| (i.solution().clone(), foreign_objective(sols, i.solution(), i.get_objective().map(|o| o.value())))).collect()).collect())
+}
+/// parent k carries objective value k+1: an offspring may stay unevaluated, or keep the objective value
+/// of a parent it is an unchanged copy of; anything else pairs a solution with a value it did not get
+fn foreign_objective<T: PartialEq>(parents: &[Vec<T>], child: &Vec<T>, obj: Option<f64>) -> bool {
+    match obj {
+        None => false,
+        Some(o) => !parents.iter().enumerate().any(|(k, p)| p == child && o == k as f64 + 1.0),
+    }
 }
 fn run_cross_perm(pc: f64, both: bool, n: usize, sols: &[Vec<usize>]) -> VecObs<usize> {
     let problem = tsp(n);
     let c: Box<dyn Component<TspP>> = rc::CycleCrossover::new::<TspP, usize>(pc, both);
-    let pop: Vec<Individual<TspP>> = sols.iter().map(|s| Individual::new(s.clone(), crate::subject::problems::so(1.0))).collect();
+    let pop: Vec<Individual<TspP>> = sols.iter().enumerate().map(|(k, s)| Individual::new(s.clone(), crate::subject::problems::so(k as f64 + 1.0))).collect();
     let mut st = state_with::<TspP>(vec![pop]);
     let r = run_component(c.as_ref(), &problem, &mut st).map_err(|e| format!("{:#}", e));
-    (r, pops_of(&st).iter().map(|p| p.iter().map(|i| (i.solution().clone(), i.is_evaluated())).collect()).collect())
+    (r, pops_of(&st).iter().map(|p| p.iter().map(|i| (i.solution().clone(), foreign_objective(sols, i.solution(), i.get_objective().map(|o| o.value())))).collect()).collect())
 }
 
 /// Can `children` be parsed as the offspring of consecutive parent pairs?
@@ -380,7 +388,7 @@ fn check_cross<T: PartialEq + Clone + std::fmt::Debug>(name: &str, pc: f64, both
         return Some((format!("{} offspring-count", head), ctx(format!("{} offspring {:?}, documented count {}..={}", children.len(), children, lo, hi))));
     }
     if pops[0].iter().any(|c| c.1) {
-        return Some((format!("{} offspring-marked-evaluated", head), ctx("an offspring is marked evaluated".into())));
+        return Some((format!("{} offspring-carries-foreign-objective", head), ctx(format!("an offspring is marked evaluated with an objective value that is not the one of a parent it is a copy of (parent k carries k+1); offspring {:?}", pops[0]))));
     }
     if !parse_children(sols, &children, pc, both, gene_ok, pair_ok) {
         return Some((format!("{} genes", head), ctx(format!("offspring {:?} are not children of consecutive parent pairs (each position one of the two parental genes, both conserved across the two children)", children))));
@@ -716,6 +724,36 @@ fn component_cases(thorough: bool) -> Vec<Case> {
     cases
 }
 
+/// arithmetic_crossover: every child gene is a convex combination of the two parental genes with the given
+/// weight (child 1: alpha*p1 + (1-alpha)*p2, child 2 the mirrored one). `wide` uses parents whose genes
+/// differ by many orders of magnitude and come close to the largest finite double.
+fn check_ax(n: usize, alphas: &[f64], wide: bool) -> Vec<(String, String)> {
+    let (q1, q2): (Vec<f64>, Vec<f64>) = if wide {
+        let a = [1.2e308, 1e17, -1.7e308, 3.0, 1e-300];
+        let b = [1.7e308, 3.0, -1.2e308, 1e17, 1.0];
+        (a[..n].to_vec(), b[..n].to_vec())
+    } else {
+        ((0..n).map(|i| i as f64 - 1.5).collect(), (0..n).map(|i| 10.0 - 2.5 * i as f64).collect())
+    };
+    match catch(|| rf::arithmetic_crossover(&q1, &q2, alphas)) {
+        Ok(ch) => {
+            let ok = ch[0].len() == n && ch[1].len() == n && (0..n).all(|i| {
+                let (lo, hi) = (q1[i].min(q2[i]), q1[i].max(q2[i]));
+                let tol = 1e-12 * lo.abs().max(hi.abs()).max(1.0);
+                let e1 = alphas[i] * q1[i] + (1.0 - alphas[i]) * q2[i];
+                let e2 = alphas[i] * q2[i] + (1.0 - alphas[i]) * q1[i];
+                ch[0][i].is_finite() && ch[1][i].is_finite() && ch[0][i] >= lo - tol && ch[0][i] <= hi + tol && ch[1][i] >= lo - tol && ch[1][i] <= hi + tol && (ch[0][i] - e1).abs() <= 1e-9 * e1.abs().max(1.0) && (ch[1][i] - e2).abs() <= 1e-9 * e2.abs().max(1.0)
+            });
+            if ok {
+                vec![]
+            } else {
+                vec![(format!("C13 helper=arithmetic_crossover convexity{}", if wide { " wide-genes" } else { "" }), format!("parents {:?} / {:?}, alphas {:?}: children {:?}", q1, q2, alphas, ch))]
+            }
+        }
+        Err(e) => vec![("C13 helper=arithmetic_crossover panic".to_string(), format!("alphas {:?}: {}", alphas, e))],
+    }
+}
+
 pub fn run(rep: &mut Report) {
     let thorough = rep.tier == Tier::Thorough;
     rep.alpha("helpers: circular_swap/circular_swap2 on all permutations of length <= N with all tuples of >= 2 distinct indices; translocate_slice/translocate_slice2 on all non-empty ranges and all insertion indices; multi_point_crossover with all non-empty cut sets of size < n; uniform_crossover with all masks; arithmetic_crossover with alphas in {0,1/4,1/2,1}^n; cycle_crossover on all pairs of permutations");
@@ -828,25 +866,16 @@ pub fn run(rep: &mut Report) {
         }
         if n <= 5 {
             let a = [0.0, 0.25, 0.5, 1.0];
-            let q1: Vec<f64> = (0..n).map(|i| i as f64 - 1.5).collect();
-            let q2: Vec<f64> = (0..n).map(|i| 10.0 - 2.5 * i as f64).collect();
-            for code in 0..4usize.pow(n as u32) {
-                let alphas: Vec<f64> = (0..n).map(|i| a[(code / 4usize.pow(i as u32)) % 4]).collect();
-                p.transitions += 1;
-                p.traces += 1;
-                p.states += 1;
-                match catch(|| rf::arithmetic_crossover(&q1, &q2, &alphas)) {
-                    Ok(ch) => {
-                        p.outcome("ax");
-                        let ok = ch[0].len() == n && ch[1].len() == n && (0..n).all(|i| {
-                            let (lo, hi) = (q1[i].min(q2[i]), q1[i].max(q2[i]));
-                            ch[0][i] >= lo - 1e-12 && ch[0][i] <= hi + 1e-12 && ch[1][i] >= lo - 1e-12 && ch[1][i] <= hi + 1e-12 && ((ch[0][i] + ch[1][i]) - (q1[i] + q2[i])).abs() < 1e-9 && (ch[0][i] - (alphas[i] * q1[i] + (1.0 - alphas[i]) * q2[i])).abs() < 1e-9
-                        });
-                        if !ok {
-                            p.violate("C13 helper=arithmetic_crossover convexity".to_string(), format!("alphas {:?}: children {:?}", alphas, ch), json!({"helper": "ax", "n": n, "alphas": alphas}));
-                        }
+            for wide in [false, true] {
+                for code in 0..4usize.pow(n as u32) {
+                    let alphas: Vec<f64> = (0..n).map(|i| a[(code / 4usize.pow(i as u32)) % 4]).collect();
+                    p.transitions += 1;
+                    p.traces += 1;
+                    p.states += 1;
+                    p.outcome(if wide { "ax-wide" } else { "ax" });
+                    for (s, d) in check_ax(n, &alphas, wide) {
+                        p.violate(s, d, json!({"helper": "ax", "n": n, "alphas": alphas, "wide": wide}));
                     }
-                    Err(e) => p.violate("C13 helper=arithmetic_crossover panic".to_string(), format!("alphas {:?}: {}", alphas, e), json!({"helper": "ax", "n": n, "alphas": alphas})),
                 }
             }
         }
@@ -943,18 +972,7 @@ pub fn replay(case: &Value) -> Result<Vec<(String, String)>, String> {
             "ax" => {
                 let n = case["n"].as_u64().unwrap() as usize;
                 let alphas: Vec<f64> = case["alphas"].as_array().unwrap().iter().map(|b| b.as_f64().unwrap()).collect();
-                let q1: Vec<f64> = (0..n).map(|i| i as f64 - 1.5).collect();
-                let q2: Vec<f64> = (0..n).map(|i| 10.0 - 2.5 * i as f64).collect();
-                match catch(|| rf::arithmetic_crossover(&q1, &q2, &alphas)) {
-                    Ok(ch) => {
-                        let ok = ch[0].len() == n && ch[1].len() == n && (0..n).all(|i| {
-                            let (lo, hi) = (q1[i].min(q2[i]), q1[i].max(q2[i]));
-                            ch[0][i] >= lo - 1e-12 && ch[0][i] <= hi + 1e-12 && ch[1][i] >= lo - 1e-12 && ch[1][i] <= hi + 1e-12 && ((ch[0][i] + ch[1][i]) - (q1[i] + q2[i])).abs() < 1e-9 && (ch[0][i] - (alphas[i] * q1[i] + (1.0 - alphas[i]) * q2[i])).abs() < 1e-9
-                        });
-                        if ok { vec![] } else { vec![("C13 helper=arithmetic_crossover convexity".to_string(), format!("{:?}", ch))] }
-                    }
-                    Err(e) => vec![("C13 helper=arithmetic_crossover panic".to_string(), e)],
-                }
+                check_ax(n, &alphas, case["wide"].as_bool().unwrap_or(false))
             }
             "cx" => {
                 let (a, b) = (us(&case["a"]), us(&case["b"]));
